@@ -215,10 +215,12 @@ fn credentials(c: &Conf, raft_key: &Option<String>, app: &str, ctx: &mut Ctx) ->
 fn body_for(app: &str, handler: &str, extra: &HashMap<String, serde_json::Value>) -> serde_json::Value {
     use serde_json::json;
     let vote = json!({"leader_id": {"term": 1, "node_id": 2}, "committed": false});
+    // append-entries / install-snapshot come from an established leader: openraft asserts a committed vote
+    let lvote = json!({"leader_id": {"term": 1, "node_id": 2}, "committed": true});
     match handler {
         "handle_vote" => json!({"vote": vote, "last_log_id": null}),
-        "handle_append_entries" => json!({"vote": vote, "prev_log_id": null, "entries": [], "leader_commit": null}),
-        "handle_snapshot" => json!({"vote": vote, "meta": {"last_log_id": null, "last_membership": {"log_id": null, "membership": {"configs": [], "nodes": {}}}, "snapshot_id": "s"}, "offset": 0, "data": [], "done": true}),
+        "handle_append_entries" => json!({"vote": lvote, "prev_log_id": null, "entries": [], "leader_commit": null}),
+        "handle_snapshot" => json!({"vote": lvote, "meta": {"last_log_id": null, "last_membership": {"log_id": null, "membership": {"configs": [], "nodes": {}}}, "snapshot_id": "s"}, "offset": 0, "data": [], "done": true}),
         "handle_init" => json!({"members": {}}),
         "handle_add_learner" => json!({"node_id": 2, "addr": "http://127.0.0.1:9"}),
         "handle_change_membership" => json!({"members": [1]}),
@@ -319,9 +321,23 @@ async fn coord_snapshot(c: &SharedCoordinator) -> String {
     format!("W{:?} G{:?} C{:?} M{:?} R{:?} L{:?} P{} H{:?}", w, g, k, m, r, llm, c.pending_rebalance, c.ha_role)
 }
 
-fn raft_snapshot(raft: &varpulis_cluster::raft::routes::SharedRaft) -> String {
+fn raft_read(raft: &varpulis_cluster::raft::routes::SharedRaft) -> String {
     let m = raft.metrics().borrow().clone();
     format!("{:?}|{:?}|{:?}|{:?}|{:?}|{:?}", m.current_term, m.vote, m.last_log_index, m.last_applied, m.membership_config, m.state)
+}
+
+/// the raft core publishes its metrics asynchronously (a served vote/append shows up a moment after the
+/// reply): read until two consecutive reads 2 ms apart agree, so that the effect of an earlier SERVED
+/// request is not charged to the next (refused) one
+async fn raft_snapshot(raft: &varpulis_cluster::raft::routes::SharedRaft) -> String {
+    let mut last = raft_read(raft);
+    for _ in 0..100 {
+        tokio::time::sleep(std::time::Duration::from_millis(2)).await;
+        let now = raft_read(raft);
+        if now == last { return now; }
+        last = now;
+    }
+    last
 }
 
 async fn tenant_snapshot(mgr: &SharedTenantManager) -> String {
@@ -381,9 +397,9 @@ async fn run_cluster(ctx: &mut Ctx, routes: &[RouteRow], tmp: &std::path::Path) 
                     }
                     for path in paths {
                         let body = if r.body { Some(body_for("cluster", &r.handler, &HashMap::new())) } else { None };
-                        let before = format!("{} {}", coord_snapshot(&coord).await, raft_snapshot(&raft));
+                        let before = format!("{} {}", coord_snapshot(&coord).await, if r.pattern[0] == "raft" { raft_snapshot(&raft).await } else { raft_read(&raft) });
                         let ans = send(&filter, &r.method, &path, api, adm, body.as_ref()).await;
-                        let after = format!("{} {}", coord_snapshot(&coord).await, raft_snapshot(&raft));
+                        let after = format!("{} {}", coord_snapshot(&coord).await, if r.pattern[0] == "raft" { raft_snapshot(&raft).await } else { raft_read(&raft) });
                         report(ctx, r, &path, api, adm, ans, before == after);
                     }
                 }
@@ -420,6 +436,14 @@ fn report(ctx: &mut Ctx, r: &RouteRow, path: &str, api: &Option<String>, adm: &O
 }
 
 async fn run_cli(ctx: &mut Ctx, routes: &[RouteRow]) {
+    // a well-formed checkpoint for restore bodies (the handler-level key check runs after body parsing)
+    let any_checkpoint = {
+        let mut m = TenantManager::new();
+        let id = m.create_tenant("scratch".into(), "scratch-key".into(), TenantQuota::enterprise()).expect("tenant");
+        let t = m.get_tenant_mut(&id).unwrap();
+        let pid = t.deploy_pipeline("P".into(), "stream A = SensorReading .where(x > 1)".into()).await.expect("deploy");
+        serde_json::to_value(t.checkpoint_pipeline(&pid).await.expect("checkpoint")).expect("json")
+    };
     let lits = literals_of(routes, "cli");
     let mine: Vec<RouteRow> = routes.iter().filter(|r| r.app == "cli").cloned().collect();
     for conf in cli_confs(ctx) {
@@ -427,6 +451,7 @@ async fn run_cli(ctx: &mut Ctx, routes: &[RouteRow]) {
         let mut index: Vec<(String, String)> = vec![];
         let mut pipeline_id = "no-pipeline".to_string();
         let mut extra = HashMap::new();
+        extra.insert("restore".to_string(), serde_json::json!({ "checkpoint": any_checkpoint }));
         for (i, key) in conf.tenants.iter().enumerate() {
             let id = mgr.create_tenant(format!("T{i}"), key.clone(), TenantQuota::enterprise()).expect("tenant");
             let t = mgr.get_tenant_mut(&id).unwrap();
